@@ -71,27 +71,32 @@ def listLimit : Option Int → Nat
   | none => 1000
   | some n => n.toNat
 
-/-- listings may be compared with the store: the name agrees; no delimiter is given [else fs:list-delimiter-not-rolled-up,
-    fs:list-delimiter-rewrites-keys]; the prefix reads the same as a path [fs:list-prefix-as-path]; `max-keys`
-    does not cut the listing [fs:list-ignores-max-keys] -/
-def ListOk (s : State) (b : Bytes) (pfx delim : Option Bytes) (maxKeys : Option Int) : Prop :=
-  NameOk b ∧ delim = none ∧
-  (match pfx with
-    | none => True
-    | some p => prefixPath p [slash] = p) ∧
-  (match s.tree b with
-    | none => True
-    | some t => t.files.length ≤ listLimit maxKeys)
+/-- listings may be compared with the store: the name agrees; the prefix does not start with `/` [else fs:list-prefix-as-path:
+    `list_objects_v2` drops leading slashes of the prefix — no key starts with one —, the existing integration test
+    `test_list_objects_v2` demands it]. Nothing else: any delimiter (also the empty one), any marker, any `max-keys`. -/
+def ListOk (b : Bytes) (pfx : Option Bytes) : Prop :=
+  NameOk b ∧
+  match pfx with
+  | none => True
+  | some p => p.head? ≠ some slash
+
+theorem trimSlashes_eq {p : Bytes} (h : p.head? ≠ some slash) : trimSlashes p = p := by
+  cases p with
+  | nil => rfl
+  | cons c cs =>
+    have : c ≠ slash := by simpa using h
+    simp [trimSlashes, this]
+
+theorem ListOk.prefix_eq {b : Bytes} {pfx : Option Bytes} (h : ListOk b pfx) :
+    trimSlashes (pfx.getD []) = pfx.getD [] := by
+  cases pfx with
+  | none => rfl
+  | some p => exact trimSlashes_eq h.2
 
 /-- the listing both sides compute, before the marker is applied -/
 def listBase (t : Tree) (pfx : Option Bytes) : List (Bytes × Nat) :=
   sortByKey ((t.files.filter fun e => (pfx.getD []).isPrefixOf (joinWith [slash] e.1)).map fun e =>
     (joinWith [slash] e.1, e.2.length))
-
-theorem listBase_length_le (t : Tree) (pfx : Option Bytes) : (listBase t pfx).length ≤ t.files.length := by
-  unfold listBase
-  rw [sortByKey_length, List.length_map]
-  exact List.length_filter_le _ _
 
 /-- the listing after the marker -/
 def listAfter (t : Tree) (pfx after : Option Bytes) : List (Bytes × Nat) :=
@@ -99,88 +104,206 @@ def listAfter (t : Tree) (pfx after : Option Bytes) : List (Bytes × Nat) :=
   | none => listBase t pfx
   | some m => (listBase t pfx).filter fun e => bytesLt m e.1
 
-theorem listAfter_length_le (t : Tree) (pfx after : Option Bytes) : (listAfter t pfx after).length ≤ t.files.length := by
-  unfold listAfter
+theorem listKeys_eq (t : Tree) (pfx after : Option Bytes) :
+    listKeys t (pfx.getD []) after = listAfter t pfx after := by
   cases after with
-  | none => exact listBase_length_le t pfx
-  | some m => exact Nat.le_trans (List.length_filter_le _ _) (listBase_length_le t pfx)
+  | none => rfl
+  | some m =>
+    simp only [listKeys, listAfter]
+    rw [dropWhile_le_eq_filter_lt m _ (sortByKey_sorted _)]
+    rfl
 
-theorem listKeys_eq (t : Tree) (pfx after : Option Bytes)
-    (hp : match pfx with
-      | none => True
-      | some p => prefixPath p [slash] = p) :
-    listKeys t pfx none after = listAfter t pfx after := by
-  have hbase : sortByKey ((t.files.filter fun e => (pfx.getD []).isPrefixOf (joinWith [slash] e.1)).map fun e =>
-          (joinWith [slash] e.1, e.2.length)) = listBase t pfx := rfl
-  cases pfx with
-  | none =>
-    cases after with
-    | none =>
-      simp only [listKeys, listAfter, Option.getD_none]
-      rw [← hbase]; simp
-    | some m =>
-      simp only [listKeys, listAfter, Option.getD_none]
-      rw [dropWhile_le_eq_filter_lt m _ (sortByKey_sorted _), ← hbase]; simp
-  | some p =>
-    simp only at hp
-    cases after with
-    | none =>
-      simp only [listKeys, listAfter, Option.getD_none, hp]
-      rw [← hbase]; simp
-    | some m =>
-      simp only [listKeys, listAfter, Option.getD_none, hp]
-      rw [dropWhile_le_eq_filter_lt m _ (sortByKey_sorted _), ← hbase]; simp
+theorem listAfter_prefix (t : Tree) (pfx after : Option Bytes) :
+    ∀ e ∈ listAfter t pfx after, (pfx.getD []).isPrefixOf e.1 = true := by
+  have hb : ∀ e ∈ listBase t pfx, (pfx.getD []).isPrefixOf e.1 = true := by
+    intro e he
+    unfold listBase at he
+    rw [sortByKey_mem, List.mem_map] at he
+    obtain ⟨f, hf, rfl⟩ := he
+    exact (List.mem_filter.mp hf).2
+  intro e he
+  cases after with
+  | none => exact hb e he
+  | some m => exact hb e (List.mem_filter.mp he).1
 
-theorem listing_eq (s : State) (b : Bytes) (t : Tree) (pfx after : Option Bytes) (maxKeys : Option Int)
-    (hlim : t.files.length ≤ listLimit maxKeys) :
-    listing (absTree s b t) pfx none after maxKeys =
-      .listed (listAfter t pfx after) (listAfter t pfx after).length false [] := by
+/-! ### the roll-up loop of the code computes the store's entries -/
+
+def toEntry : Listed → Entry
+  | .object k sz => .key k sz
+  | .commonPrefix g => .cp g
+
+/-- `str::find` is the store's `findSub` (for the non-empty patterns the code passes) -/
+theorem strFind_eq_findSub {d : Bytes} (hd : d ≠ []) : ∀ s : Bytes, strFind d s = findSub d s := by
+  intro s
+  induction s with
+  | nil => simp [strFind, findSub, hd]
+  | cons c cs ih => simp only [strFind, findSub, ih]
+
+/-- what precedes the first occurrence, then the pattern = everything up to the end of the first occurrence -/
+theorem take_findSub {d : Bytes} : ∀ {s : Bytes} {i : Nat}, findSub d s = some i → s.take (i + d.length) = s.take i ++ d := by
+  intro s
+  induction s with
+  | nil =>
+    intro i h
+    unfold findSub at h
+    split at h
+    · next hd => subst hd; simp
+    · cases h
+  | cons c cs ih =>
+    intro i h
+    unfold findSub at h
+    split at h
+    · next hp =>
+      cases h
+      have := List.prefix_iff_eq_take.mp (List.isPrefixOf_iff_prefix.mp hp)
+      simpa using this.symm
+    · cases hf : findSub d cs with
+      | none => rw [hf] at h; cases h
+      | some j =>
+        rw [hf] at h
+        simp only [Option.map_some, Option.some.injEq] at h
+        subst h
+        have : j + 1 + d.length = (j + d.length) + 1 := by omega
+        rw [this, List.take_succ_cons, List.take_succ_cons, ih hf]
+        rfl
+
+/-- the entry of one key: as the code groups it = as the store does -/
+theorem entryOf_eq (p : Bytes) (delim : Option Bytes) (k : Bytes) (sz : Nat) (hp : p.isPrefixOf k = true) :
+    entryOf p delim k sz =
+      match (delim.filter fun d => d ≠ []).bind fun d => commonPrefix p d k with
+      | none => .key k sz
+      | some g => .cp g := by
+  cases delim with
+  | none => rfl
+  | some d =>
+    by_cases hd : d = []
+    · subst hd; rfl
+    · have hf : (Option.some d).filter (fun d => decide (d ≠ [])) = some d := by simp [Option.filter, hd]
+      simp only [hf, Option.bind_some, entryOf, hd, if_false, commonPrefix, hp, if_true]
+      rw [strFind_eq_findSub hd]
+      cases hfs : findSub d (k.drop p.length) with
+      | none => rfl
+      | some i => simp only [take_findSub hfs, List.append_assoc]
+
+/-- a leading common prefix equal to the one pushed last is not pushed again -/
+def skipHead (last : Option Bytes) : List Entry → List Entry
+  | .cp c :: t => if last = some c then t else .cp c :: t
+  | E => E
+
+theorem skipHead_none (E : List Entry) : skipHead none E = E := by
+  unfold skipHead; split <;> simp
+
+theorem dedupCps_key (k : Bytes) (sz : Nat) (E : List Entry) :
+    dedupCps (.key k sz :: E) = .key k sz :: dedupCps E := by
+  cases E with
+  | nil => rfl
+  | cons f t => simp [dedupCps, Entry.isCp]
+
+theorem dedupCps_cp : ∀ (E : List Entry) (c : Bytes),
+    dedupCps (.cp c :: E) = .cp c :: skipHead (some c) (dedupCps E) := by
+  intro E
+  induction E with
+  | nil => intro c; rfl
+  | cons f t ih =>
+    intro c
+    by_cases hf : f = .cp c
+    · subst hf
+      have h1 : dedupCps (Entry.cp c :: Entry.cp c :: t) = dedupCps (Entry.cp c :: t) := by
+        simp [dedupCps, Entry.isCp]
+      rw [h1, ih c]
+      simp [skipHead]
+    · have h1 : dedupCps (Entry.cp c :: f :: t) = Entry.cp c :: dedupCps (f :: t) := by
+        have : ¬ (Entry.cp c = f) := fun h => hf h.symm
+        simp [dedupCps, this]
+      rw [h1]
+      congr 1
+      cases f with
+      | key k sz => rw [dedupCps_key]; rfl
+      | cp c' =>
+        rw [ih c']
+        have : ¬ (some c = some c') := by
+          intro h; apply hf; cases h; rfl
+        simp [skipHead, this]
+
+/-- the loop, against the store's "map every key to its entry, then count consecutive equal common prefixes once" -/
+theorem rollUp_eq (p : Bytes) (d : Option Bytes) (ent : Bytes × Nat → Entry) :
+    ∀ (L : List (Bytes × Nat)) (last : Option Bytes),
+      (∀ e ∈ L, ent e = match d.bind fun d => commonPrefix p d e.1 with
+        | none => .key e.1 e.2
+        | some g => .cp g) →
+      (rollUp p d last L).map toEntry = skipHead last (dedupCps (L.map ent)) := by
+  intro L
+  induction L with
+  | nil => intro last _; cases last <;> rfl
+  | cons x rest ih =>
+    intro last h
+    obtain ⟨k, sz⟩ := x
+    have hx := h (k, sz) (List.mem_cons_self ..)
+    have hrest : ∀ e ∈ rest, ent e = match d.bind fun d => commonPrefix p d e.1 with
+        | none => .key e.1 e.2
+        | some g => .cp g := fun e he => h e (List.mem_cons_of_mem _ he)
+    simp only [List.map_cons]
+    cases hg : d.bind fun d => commonPrefix p d k with
+    | none =>
+      simp only [hg] at hx
+      simp only [rollUp, hg, List.map_cons, toEntry, hx, dedupCps_key, ih none hrest, skipHead_none]
+      rfl
+    | some g =>
+      simp only [hg] at hx
+      rw [hx, dedupCps_cp]
+      by_cases hl : last = some g
+      · simp only [rollUp, hg, hl, if_true]
+        rw [ih (some g) hrest]
+        simp [skipHead]
+      · simp only [rollUp, hg, hl, if_false, List.map_cons, toEntry]
+        rw [ih (some g) hrest]
+        simp [skipHead, hl]
+
+/-- the members of the answer, read off the code's entries and off the store's -/
+theorem listed_map (E : List Listed) (lim : Nat) :
+    Resp.listed ((E.take lim).filterMap Listed.object?) (E.take lim).length (decide (E.length > lim))
+        ((E.take lim).filterMap Listed.commonPrefix?) =
+      Resp.listed
+        (((E.map toEntry).take lim).filterMap fun e => match e with
+          | .key k sz => some (k, sz)
+          | .cp _ => none)
+        ((E.map toEntry).take lim).length
+        (decide ((E.map toEntry).length > lim))
+        (((E.map toEntry).take lim).filterMap fun e => match e with
+          | .cp q => some q
+          | .key _ _ => none) := by
+  rw [← List.map_take, List.filterMap_map, List.filterMap_map, List.length_map, List.length_map]
+  have h1 : ((fun e => match e with
+      | Entry.key k sz => some (k, sz)
+      | Entry.cp _ => none) ∘ toEntry) = Listed.object? := by
+    funext e; cases e <;> rfl
+  have h2 : ((fun e => match e with
+      | Entry.cp q => some q
+      | Entry.key _ _ => none) ∘ toEntry) = Listed.commonPrefix? := by
+    funext e; cases e <;> rfl
+  rw [h1, h2]
+
+/-- `list_objects_v2` on a bucket directory answers what the store answers on the bucket's objects: every prefix that does
+    not start with `/`, every delimiter, marker and `max-keys` -/
+theorem listAnswer_eq (s : State) (b : Bytes) (t : Tree) (pfx delim after : Option Bytes) (maxKeys : Option Int)
+    (hp : trimSlashes (pfx.getD []) = pfx.getD []) :
+    listAnswer t pfx delim after maxKeys = listing (absTree s b t) pfx delim after maxKeys := by
   have hunder : sortByKey (((absTree s b t).filter fun e => (pfx.getD []).isPrefixOf e.1).map fun e =>
       (e.1, e.2.content.length)) = listBase t pfx := by
     unfold listBase
     rw [absTree_eq_files, List.filter_map, List.map_map]
     rfl
-  have hlen := listAfter_length_le t pfx after
-  have hfun : (fun e : Bytes × Nat => entryOf (pfx.getD []) none e.1 e.2) = fun e => Entry.key e.1 e.2 := by
-    funext e; rfl
-  have hlim' : (listAfter t pfx after).length ≤ listLimit maxKeys := Nat.le_trans hlen hlim
-  have key : ∀ (L : List (Bytes × Nat)) (lim : Nat), L.length ≤ lim →
-      Resp.listed
-        (((L.map fun e => Entry.key e.1 e.2).take lim).filterMap fun e => match e with
-          | .key k sz => some (k, sz)
-          | .cp _ => none)
-        ((L.map fun e => Entry.key e.1 e.2).take lim).length
-        (decide ((L.map fun e => Entry.key e.1 e.2).length > lim))
-        (((L.map fun e => Entry.key e.1 e.2).take lim).filterMap fun e => match e with
-          | .cp q => some q
-          | .key _ _ => none) = Resp.listed L L.length false [] := by
-    intro L lim hL
-    have ht : (L.map fun e => Entry.key e.1 e.2).take lim = L.map fun e => Entry.key e.1 e.2 := by
-      apply List.take_of_length_le; simpa using hL
-    rw [ht, filterMap_keys, filterMap_cps]
-    have : ¬ L.length > lim := by omega
-    simp [this]
-  cases maxKeys with
-  | none =>
-    cases after with
-    | none =>
-      simp only [listing, hunder, hfun]
-      rw [dedupCps_keys]
-      exact key (listBase t pfx) 1000 hlim'
-    | some m =>
-      simp only [listing, hunder, hfun]
-      rw [dedupCps_keys]
-      exact key _ 1000 hlim'
-  | some n =>
-    cases after with
-    | none =>
-      simp only [listing, hunder, hfun]
-      rw [dedupCps_keys]
-      exact key (listBase t pfx) n.toNat hlim'
-    | some m =>
-      simp only [listing, hunder, hfun]
-      rw [dedupCps_keys]
-      exact key _ n.toNat hlim'
+  have hlim : (maxKeys.getD 1000).toNat = (match maxKeys with
+      | none => 1000
+      | some n => n.toNat) := by
+    cases maxKeys <;> rfl
+  have hroll := rollUp_eq (pfx.getD []) (delim.filter fun d => d ≠ [])
+    (fun e => entryOf (pfx.getD []) delim e.1 e.2) (listAfter t pfx after) none
+    (fun e he => entryOf_eq (pfx.getD []) delim e.1 e.2 (listAfter_prefix t pfx after e he))
+  rw [skipHead_none] at hroll
+  simp only [listAnswer, listing, hp, hunder, listKeys_eq, hlim]
+  rw [listed_map, hroll]
+  rfl
 
 end S3V.FsStore
 
@@ -188,45 +311,39 @@ namespace S3V.FsStore
 open S3V.StoreSpec
 
 theorem listV2_refines (H : Hashes) (dl : Nat) {s : State} (hi : Inv s) {b : Bytes}
-    {pfx delim after : Option Bytes} {maxKeys : Option Int} (hg : ListOk s b pfx delim maxKeys) :
+    {pfx delim after : Option Bytes} {maxKeys : Option Int} (hg : ListOk b pfx) :
     (step H dl s (.listObjectsV2 b pfx delim after maxKeys)).2 =
       (StoreSpec.step H (abs s) (.listObjectsV2 b pfx delim after maxKeys)).2 ∧
     abs (step H dl s (.listObjectsV2 b pfx delim after maxKeys)).1 =
       (StoreSpec.step H (abs s) (.listObjectsV2 b pfx delim after maxKeys)).1 ∧
     Inv (step H dl s (.listObjectsV2 b pfx delim after maxKeys)).1 := by
-  obtain ⟨hname, hdelim, hpfx, hlim⟩ := hg
-  subst hdelim
-  rcases hname.cases with ⟨hbo, hbd⟩ | ⟨hbo, hbd⟩
+  have hpfx := hg.prefix_eq
+  rcases hg.1.cases with ⟨hbo, hbd⟩ | ⟨hbo, hbd⟩
   · cases ht : s.tree b with
     | none =>
       have habs : (abs s).bucket b = none := by rw [abs_bucket, ht]; rfl
       simp [step, StoreSpec.step, hbd, hbo, ht, habs, hi]
     | some t =>
-      rw [ht] at hlim
-      simp only at hlim
       have habs : (abs s).bucket b = some (absTree s b t) := by rw [abs_bucket, ht]; rfl
-      simp [step, StoreSpec.step, hbd, hbo, ht, habs, hi, listKeys_eq t pfx after hpfx, listing_eq s b t pfx after maxKeys hlim]
+      simp [step, StoreSpec.step, hbd, hbo, ht, habs, hi, listAnswer_eq s b t pfx delim after maxKeys hpfx]
   · simp [step, StoreSpec.step, hbd, hbo, hi]
 
 theorem listV1_refines (H : Hashes) (dl : Nat) {s : State} (hi : Inv s) {b : Bytes}
-    {pfx delim marker : Option Bytes} {maxKeys : Option Int} (hg : ListOk s b pfx delim maxKeys) :
+    {pfx delim marker : Option Bytes} {maxKeys : Option Int} (hg : ListOk b pfx) :
     (step H dl s (.listObjects b pfx delim marker maxKeys)).2 =
       (StoreSpec.step H (abs s) (.listObjects b pfx delim marker maxKeys)).2 ∧
     abs (step H dl s (.listObjects b pfx delim marker maxKeys)).1 =
       (StoreSpec.step H (abs s) (.listObjects b pfx delim marker maxKeys)).1 ∧
     Inv (step H dl s (.listObjects b pfx delim marker maxKeys)).1 := by
-  obtain ⟨hname, hdelim, hpfx, hlim⟩ := hg
-  subst hdelim
-  rcases hname.cases with ⟨hbo, hbd⟩ | ⟨hbo, hbd⟩
+  have hpfx := hg.prefix_eq
+  rcases hg.1.cases with ⟨hbo, hbd⟩ | ⟨hbo, hbd⟩
   · cases ht : s.tree b with
     | none =>
       have habs : (abs s).bucket b = none := by rw [abs_bucket, ht]; rfl
       simp [step, StoreSpec.step, hbd, hbo, ht, habs, hi]
     | some t =>
-      rw [ht] at hlim
-      simp only at hlim
       have habs : (abs s).bucket b = some (absTree s b t) := by rw [abs_bucket, ht]; rfl
-      simp [step, StoreSpec.step, hbd, hbo, ht, habs, hi, listKeys_eq t pfx marker hpfx, listing_eq s b t pfx marker maxKeys hlim]
+      simp [step, StoreSpec.step, hbd, hbo, ht, habs, hi, listAnswer_eq s b t pfx delim marker maxKeys hpfx]
   · simp [step, StoreSpec.step, hbd, hbo, hi]
 
 theorem insSorted_perm {β : Type} (x : Bytes × β) (l : List (Bytes × β)) : (insSorted bytesLe x l).Perm (x :: l) := by
